@@ -95,6 +95,16 @@ Definition set_there (f : nat) (b : bool) (s : mstate) : list file :=
 (* the files a scan can see right now (FS) *)
 Definition visible (s : mstate) : list nat := filter (there s) (seq 0 (length (s_files s))).
 
+(* the .dat names a readdir returns: published files, and the 0-byte reservations of files still
+   being written (a flush's, or the merge output's) *)
+Definition has_entry (s : mstate) (f : nat) : bool :=
+  there s f || memn f (s_pending s)
+  || match s_merge s with
+     | Some m => match m_out m with Some o => (o =? f) && negb (m_committed m) | None => false end
+     | None => false
+     end.
+Definition listed (s : mstate) : list nat := filter (has_entry s) (seq 0 (length (s_files s))).
+
 Definition merge_running (s : mstate) : bool := match s_merge s with Some _ => true | None => false end.
 
 (* every running query notes that a merge was running *)
@@ -248,7 +258,7 @@ Definition mstep (k : mkind) (s : mstate) (l : mlabel) : option mstate :=
       | FsMeta, Some x =>
           if match q_listing x with None => true | Some _ => false end
              && match q_snap x with None => true | Some _ => false end && negb (q_done x) then
-            Some (set_q q (mkQuery (q_acked0 x) (q_overlap x) (Some (visible s)) (Some [])
+            Some (set_q q (mkQuery (q_acked0 x) (q_overlap x) (Some (listed s)) (Some [])
                                    (q_todo x) (q_handles x) (q_got x) (q_err x) false) s)
           else None
       | _, _ => None
